@@ -134,6 +134,15 @@ CLAIMED = {
             "step by step by Trace_HugrTracked.",
             "Non-negative indices; after a refused call (IndexError) the behaviour ends (partial effects are not compared).",
             "DESIGN.md §5 C15"),
+    "C13": ("TLA+ spec HugrRefusals.tla (one decision function per inconsistency class, wire locality over a hierarchy skeleton): "
+            "TLC enumeration of every situation with its specified outcome + set-up and offending call on the real builders (S->C)",
+            "TLC enumerates all row pairs for case / exit-branch / function outputs (3 variants of building the conditional, one nested), "
+            "case indices -2..4 x built sets, unbuilt-case exits, polymorphic call/load uses (params x type args x instantiation x 4 entry "
+            "points), call targets, wire sources, integer arguments (tracked / untracked / plain builder), incomplete serializations, and "
+            "all 100 (source, target builder) pairs of a world HUGR with nested DFGs, two CFGs, blocks and a CFG nested in a block whose "
+            "hierarchy is read back from the real object; the offending call must raise the documented class, consistent calls must be accepted.",
+            "The state after a refused call is not compared; Dom wires requested through builders nested below a block are unspecified.",
+            "DESIGN.md §5 C13"),
 }
 
 NOT_YET = "check not built yet in this round (planned: see DESIGN.md §5); nothing is claimed for it until its TLA+ spec and conformance legs exist"
